@@ -61,6 +61,7 @@ PROPS["C06"] = {
              "relative/dangling/escaping symlinks, empty directories, odd names) are cached through output.Registry.WriteOutputs, each destination is put into a generated prior state "
              "(identical, absent, parent absent, modified, truncated, longer, exec flipped, stale file/dir/symlink, removed child, file where the directory should be, non-empty directory where the file should be, symlink to a file or directory OUTSIDE the workspace or dangling symlink at the output path), then Registry.LoadOutputs; "
              "recursive listings (type, exec bit, size, sha256, link target) before caching and after restore must be equal, Load must succeed and nothing outside the workspace may have been written through a link. "
+             "roundtrip-race: the same cases with the harness and grog built with the race detector (restores run one task per output and one goroutine per file: a report with grog frames is a violation). "
              "binary-run: real binary; a bin_output target is built, its workspace copy deleted / its directory removed / truncated / chmod-ed, then `grog run <label>` must restore it without re-running the command and execute it (exit 0, expected text printed, exec bit set). "
              "Non-trivial = roundtrip: some output carries an exec file, symlink or empty directory AND some destination prior state is not 'identical'; binary-run: the prior state is not 'intact'; distinct by full case."),
     "assumptions": [
@@ -72,6 +73,9 @@ PROPS["C06"] = {
         {"name": "roundtrip", "pkg": "c06", "test": "TestRoundTrip",
          "quick": {"shards": 8, "checks": 4000, "cap": 900},
          "thorough": {"shards": 16, "checks": 100000, "cap": 7200}},
+        {"name": "roundtrip-race", "pkg": "c06", "test": "TestRoundTrip", "race": True,
+         "quick": {"shards": 4, "checks": 600, "cap": 900},
+         "thorough": {"shards": 8, "checks": 12000, "cap": 7200}},
         {"name": "binary-run", "pkg": "c06", "test": "TestBinaryRun", "binary": True,
          "quick": {"shards": 16, "checks": 48, "cap": 900, "shrinktime": "30s"},
          "thorough": {"shards": 32, "checks": 4000, "cap": 7200, "shrinktime": "60s"}},
